@@ -60,8 +60,13 @@ C08 ==
   /\ (E.r1.out # E.r2.out \/ E.r2.out # E.r3.out \/ E.r1.fstatus # E.r2.fstatus \/ E.r2.fstatus # E.r3.fstatus) => Report("C08", "repeat formatted")
   /\ (E.s1 # E.s2 \/ E.s2 # E.s3) => Report("C08", "repeat statement")
 
+\* C07: one recipe built and rendered repeatedly in several processes: all hashes equal
+Det ==
+  /\ E.ev = "det"
+  /\ (E.nhash # 1 \/ \E i, j \in DOMAIN E.hashes : E.hashes[i] # E.hashes[j]) => Report("C07", "recipe")
+
 Init == l = 1
-Next == l <= Len(Trace) /\ l' = l + 1 /\ (C13 \/ C16 \/ C15 \/ C08)
+Next == l <= Len(Trace) /\ l' = l + 1 /\ (C13 \/ C16 \/ C15 \/ C08 \/ Det)
 Spec == Init /\ [][Next]_l
 Accepted == TLCGet("stats").diameter - 1 = Len(Trace)
 =============================================================================
